@@ -49,6 +49,18 @@ include_category                      *include_categories[kIncludeCategoriesCoun
 std::unordered_map<Chunk *, int>      chunk_priority_cache;
 std::unordered_map<std::string, bool> filename_without_ext_cache;
 
+#ifdef UNCRUSTIFY_VERIF
+
+
+//! observation hook (verif_hooks.cpp): number of entries in the two sorting caches
+size_t verif_sorting_cache_entries()
+{
+   return(chunk_priority_cache.size() + filename_without_ext_cache.size());
+}
+
+
+#endif
+
 
 /**
  * Compare two series of chunks, starting with the given ones.
